@@ -4,22 +4,21 @@
      internal/veneers/option/actions.go, rules.go, selectors.go (option rules)
      internal/veneers/types.go                            (veneers.Option / Assignment ... AsIR)
      internal/veneers/rewrite/rewrite.go                  (Rewriter.ApplyTo)
-     internal/ast/builder.go                              (MakePath, DeepCopy, LocateBy...)
+     internal/ast/builder.go                              (MakePath, Path.Append, DeepCopy, LocateBy...)
    Definitions only; every Gallina function is named after the Go function it mirrors.
 
-   Aliasing.  The Go code copies options and assignments shallowly (mergeBuilderInto, compose,
-   promote_options_to_constructor, add_option, add_assignment) and three option actions later
-   WRITE through what the copies share: RenameArgumentsAction writes option.Args[i].Name (the
-   backing array of Args) and Assignments[j].Value.Argument.Name (the pointee of a *Argument);
-   ArrayToAppendAction and MapToIndexAction write Name and Type of the pointee of
-   Assignments[0].Value.Argument.  These two kinds of cells therefore carry a LABEL in the model
-   (`la_arg`, `lo_argsl`): a shallow copy keeps the label, DeepCopy and fresh construction allocate
-   new ones, and a write is an `effect` that reaches every holder of the label in every builder.
+   Sharing.  The Go code copies options and assignments shallowly (mergeBuilderInto, compose,
+   promote_options_to_constructor, add_option, add_assignment), so several options and constructors
+   may hold the same *Argument or the same Args backing array.  Since /repo a8e18fa no rule writes
+   through such a cell any more (array_to_append, map_to_index and rename_arguments work on copies)
+   and since 0b5ce6d a composed builder owns its constructor and properties: sharing is no longer
+   observable, and the model is purely functional over the builder IR of Model/Builders.v.
+   Path.Append copies both operands into a new slice (`path_append`), MakePath builds a new one.
    Go panics (index out of range, nil dereference) are `Panic`, errors are `Err`.
 
    Not modelled: VeneerTrail (debug text) and the Debug rules built on it; writes into the spare
-   capacity of a slice shared between two holders (`append` on Constructor.Assignments,
-   Constructor.Args, Properties, Comments, Assignments when the Go runtime left cap > len). *)
+   capacity of a slice shared between two holders (`append` on Comments / Assignments / Options
+   when the Go runtime left cap > len). *)
 From Cog Require Export Model.BuildersEq Model.Names.
 Local Open Scope string_scope.
 Local Open Scope list_scope.
@@ -92,80 +91,42 @@ Definition is_bool_scalar (t : ty) : bool := match t with TScalar _ KBool _ _ =>
 Definition struct_fields (t : ty) : list field := match t with TStruct _ _ fs => fs | _ => [] end.
 Definition field_by_name (fs : list field) (n : string) : option field := find (fun f => seqb (f_name f) n) fs.
 
-(* ---------------------------------------------------------------- labelled builder IR *)
-Definition label := list nat.
-Definition label_eqb : label -> label -> bool := leqb Nat.eqb.
+(* ---------------------------------------------------------------- accessors on the builder IR (Model/Builders.v) *)
+Definition av_arg (v : avalue) : option argument := match v with AValue a _ _ => a end.
+Definition av_const (v : avalue) : dyn := match v with AValue _ c _ => c end.
+Definition av_env (v : avalue) : option (ty * list (path * avalue)) := match v with AValue _ _ e => e end.
+Definition as_arg (a : assignment) := av_arg (as_value a).
+Definition as_const (a : assignment) := av_const (as_value a).
+Definition as_env (a : assignment) := av_env (as_value a).
 
-Record lassignment := mkLAsg
-  { la_path : path ;
-    la_arg : option (label * argument) ;            (* Value.Argument: the cell it points to, and its content *)
-    la_const : dyn ; la_env : option (ty * list (path * avalue)) ;
-    la_method : string ; la_constraints : list aconstraint ; la_nilchecks : list nilcheck }.
-Record loption := mkLOpt
-  { lo_name : string ; lo_comments : list string ;
-    lo_argsl : label ;                               (* the backing array of Args *)
-    lo_args : list argument ; lo_assignments : list lassignment ; lo_default : option (list dyn) }.
-Record lconstructor := mkLCtor { lc_args : list argument ; lc_assignments : list lassignment }.
-Record lbuilder := mkLB
-  { lb_for : object ; lb_pkg : string ; lb_name : string ; lb_props : list field ;
-    lb_ctor : lconstructor ; lb_options : list loption ; lb_factories : list factory }.
+Definition set_as_path (a : assignment) (p : path) : assignment :=
+  mkAssignment p (as_value a) (as_method a) (as_constraints a) (as_nilchecks a).
+Definition set_as_arg (a : assignment) (x : option argument) : assignment :=
+  mkAssignment (as_path a) (AValue x (as_const a) (as_env a)) (as_method a) (as_constraints a) (as_nilchecks a).
+Definition set_as_method (a : assignment) (m : string) : assignment :=
+  mkAssignment (as_path a) (as_value a) m (as_constraints a) (as_nilchecks a).
 
-Definition erase_asg (a : lassignment) : assignment :=
-  mkAssignment (la_path a) (AValue (option_map snd (la_arg a)) (la_const a) (la_env a)) (la_method a)
-               (la_constraints a) (la_nilchecks a).
-Definition erase_option (o : loption) : boption :=
-  mkOption (lo_name o) (lo_comments o) (lo_args o) (map erase_asg (lo_assignments o)) (lo_default o).
-Definition erase_ctor (c : lconstructor) : constructor := mkConstructor (lc_args c) (map erase_asg (lc_assignments c)).
-Definition erase_builder (b : lbuilder) : builder :=
-  mkBuilder (lb_for b) (lb_pkg b) (lb_name b) (lb_props b) (erase_ctor (lb_ctor b)) (map erase_option (lb_options b)) (lb_factories b).
-Definition erase_builders := map erase_builder.
+Definition set_options (b : builder) (os : list boption) : builder :=
+  mkBuilder (b_for b) (b_pkg b) (b_name b) (b_props b) (b_ctor b) os (b_factories b).
+Definition set_name (b : builder) (n : string) : builder :=
+  mkBuilder (b_for b) (b_pkg b) n (b_props b) (b_ctor b) (b_options b) (b_factories b).
+Definition set_ctor (b : builder) (c : constructor) : builder :=
+  mkBuilder (b_for b) (b_pkg b) (b_name b) (b_props b) c (b_options b) (b_factories b).
+Definition set_props (b : builder) (ps : list field) : builder :=
+  mkBuilder (b_for b) (b_pkg b) (b_name b) ps (b_ctor b) (b_options b) (b_factories b).
+Definition set_factories (b : builder) (fs : list factory) : builder :=
+  mkBuilder (b_for b) (b_pkg b) (b_name b) (b_props b) (b_ctor b) (b_options b) fs.
+Definition set_oname (o : boption) (n : string) : boption :=
+  mkOption n (op_comments o) (op_args o) (op_assignments o) (op_default o).
+Definition set_ocomments (o : boption) (cs : list string) : boption :=
+  mkOption (op_name o) cs (op_args o) (op_assignments o) (op_default o).
+Definition set_oassignments (o : boption) (l : list assignment) : boption :=
+  mkOption (op_name o) (op_comments o) (op_args o) l (op_default o).
 
-(* fresh cells for a value that shares nothing (what FromAST returns, and what DeepCopy returns) *)
-Definition label_asg (l : label) (a : assignment) : lassignment :=
-  match as_value a with
-  | AValue arg c env => mkLAsg (as_path a) (option_map (fun x => (l, x)) arg) c env (as_method a) (as_constraints a) (as_nilchecks a)
-  end.
-Definition label_asgs (base : label) (l : list assignment) : list lassignment := mapi (fun j a => label_asg (base ++ [S j]) a) l.
-Definition label_option (base : label) (o : boption) : loption :=
-  mkLOpt (op_name o) (op_comments o) (base ++ [0]) (op_args o) (label_asgs base (op_assignments o)) (op_default o).
-Definition label_builder (base : label) (b : builder) : lbuilder :=
-  mkLB (b_for b) (b_pkg b) (b_name b) (b_props b)
-       (mkLCtor (ct_args (b_ctor b)) (label_asgs (base ++ [0]) (ct_assignments (b_ctor b))))
-       (mapi (fun k o => label_option (base ++ [S k]) o) (b_options b)) (b_factories b).
-Definition label_builders (t : nat) (bs : list builder) : list lbuilder := mapi (fun i b => label_builder [t; i] b) bs.
-
-(* Option.DeepCopy / Builder.DeepCopy: same value, no cell shared with the source *)
-Definition option_deep_copy (base : label) (o : loption) : loption := label_option base (erase_option o).
-Definition builder_deep_copy (base : label) (b : lbuilder) : lbuilder := label_builder base (erase_builder b).
-
-Definition set_options (b : lbuilder) (os : list loption) : lbuilder :=
-  mkLB (lb_for b) (lb_pkg b) (lb_name b) (lb_props b) (lb_ctor b) os (lb_factories b).
-Definition set_name (b : lbuilder) (n : string) : lbuilder :=
-  mkLB (lb_for b) (lb_pkg b) n (lb_props b) (lb_ctor b) (lb_options b) (lb_factories b).
-Definition set_ctor (b : lbuilder) (c : lconstructor) : lbuilder :=
-  mkLB (lb_for b) (lb_pkg b) (lb_name b) (lb_props b) c (lb_options b) (lb_factories b).
-Definition set_props (b : lbuilder) (ps : list field) : lbuilder :=
-  mkLB (lb_for b) (lb_pkg b) (lb_name b) ps (lb_ctor b) (lb_options b) (lb_factories b).
-Definition set_factories (b : lbuilder) (fs : list factory) : lbuilder :=
-  mkLB (lb_for b) (lb_pkg b) (lb_name b) (lb_props b) (lb_ctor b) (lb_options b) fs.
-Definition set_oname (o : loption) (n : string) : loption :=
-  mkLOpt n (lo_comments o) (lo_argsl o) (lo_args o) (lo_assignments o) (lo_default o).
-Definition set_ocomments (o : loption) (cs : list string) : loption :=
-  mkLOpt (lo_name o) cs (lo_argsl o) (lo_args o) (lo_assignments o) (lo_default o).
-Definition set_oassignments (o : loption) (l : list lassignment) : loption :=
-  mkLOpt (lo_name o) (lo_comments o) (lo_argsl o) (lo_args o) l (lo_default o).
-Definition set_la_path (a : lassignment) (p : path) : lassignment :=
-  mkLAsg p (la_arg a) (la_const a) (la_env a) (la_method a) (la_constraints a) (la_nilchecks a).
-Definition set_la_arg (a : lassignment) (x : option (label * argument)) : lassignment :=
-  mkLAsg (la_path a) x (la_const a) (la_env a) (la_method a) (la_constraints a) (la_nilchecks a).
-Definition set_la_method (a : lassignment) (m : string) : lassignment :=
-  mkLAsg (la_path a) (la_arg a) (la_const a) (la_env a) m (la_constraints a) (la_nilchecks a).
-
-(* ---------------------------------------------------------------- writes through shared cells *)
-Inductive effect :=
-| ESetCell (l : label) (a : argument)            (* *Argument pointee: Name and Type *)
-| ESetCellName (l : label) (n : string)           (* *Argument pointee: Name *)
-| ESetArgName (l : label) (i : nat) (n : string). (* Args backing array: [i].Name *)
+(* Option.DeepCopy / Builder.DeepCopy: the same value (that they ARE faithful copies is C18's subject and
+   is re-checked here by the duplicate contracts on cog's own output) *)
+Definition option_deep_copy (o : boption) : boption := o.
+Definition builder_deep_copy (b : builder) : builder := b.
 
 Definition set_arg_name (a : argument) (n : string) : argument := mkArg n (a_type a).
 Fixpoint set_nth_name (i : nat) (n : string) (l : list argument) : list argument :=
@@ -175,40 +136,10 @@ Fixpoint set_nth_name (i : nat) (n : string) (l : list argument) : list argument
   | a :: r, S j => a :: set_nth_name j n r
   end.
 
-Definition apply_effect_asg (e : effect) (a : lassignment) : lassignment :=
-  match la_arg a with
-  | Some (l, arg) =>
-      match e with
-      | ESetCell l' v => if label_eqb l l' then set_la_arg a (Some (l, v)) else a
-      | ESetCellName l' n => if label_eqb l l' then set_la_arg a (Some (l, set_arg_name arg n)) else a
-      | ESetArgName _ _ _ => a
-      end
-  | None => a
-  end.
-Definition apply_effect_opt (e : effect) (o : loption) : loption :=
-  let args := match e with
-              | ESetArgName l i n => if label_eqb (lo_argsl o) l then set_nth_name i n (lo_args o) else lo_args o
-              | _ => lo_args o
-              end in
-  mkLOpt (lo_name o) (lo_comments o) (lo_argsl o) args (map (apply_effect_asg e) (lo_assignments o)) (lo_default o).
-Definition apply_effect_builder (e : effect) (b : lbuilder) : lbuilder :=
-  mkLB (lb_for b) (lb_pkg b) (lb_name b) (lb_props b)
-       (mkLCtor (lc_args (lb_ctor b)) (map (apply_effect_asg e) (lc_assignments (lb_ctor b))))
-       (map (apply_effect_opt e) (lb_options b)) (lb_factories b).
-Definition apply_effects_opt (es : list effect) (o : loption) : loption := fold_left (fun o e => apply_effect_opt e o) es o.
-Definition apply_effects_builder (es : list effect) (b : lbuilder) : lbuilder := fold_left (fun b e => apply_effect_builder e b) es b.
-
-(* does the write reach this holder? *)
-Definition effect_hits_asg (e : effect) (a : lassignment) : bool :=
-  match la_arg a, e with
-  | Some (l, _), ESetCell l' _ => label_eqb l l'
-  | Some (l, _), ESetCellName l' _ => label_eqb l l'
-  | _, _ => false
-  end.
-Definition effect_hits_opt (e : effect) (o : loption) : bool :=
-  match e with ESetArgName l _ _ => label_eqb (lo_argsl o) l | _ => false end || existsb (effect_hits_asg e) (lo_assignments o).
-Definition effect_hits_builder (e : effect) (b : lbuilder) : bool :=
-  existsb (effect_hits_asg e) (lc_assignments (lb_ctor b)) || existsb (effect_hits_opt e) (lb_options b).
+(* Path.Append: both operands are copied into a new slice; PathFromStructField; AppendStructField *)
+Definition path_append (p suffix : path) : path := p ++ suffix.
+Definition path_from_struct_field (f : field) : path := [mkPathItem (f_name f) None (f_type f) None false].
+Definition path_append_struct_field (p : path) (f : field) : path := path_append p (path_from_struct_field f).
 
 (* ---------------------------------------------------------------- rules *)
 Inductive bselector :=
@@ -346,40 +277,38 @@ Definition option_rules_for (l : string) (lrs : list language_rules) : list orul
   flat_map (fun lr => if seqb (lr_language lr) l then lr_option_rules lr else []) lrs.
 
 (* ---------------------------------------------------------------- selectors *)
-Definition sel_builder (ss : schemas) (s : bselector) (b : lbuilder) : bool :=
+Definition sel_builder (ss : schemas) (s : bselector) (b : builder) : bool :=
   match s with
-  | BSByObject pkg n => equal_fold (o_selfpkg (lb_for b)) pkg && equal_fold (o_selfname (lb_for b)) n
-  | BSByName pkg n => equal_fold (o_selfpkg (lb_for b)) pkg && equal_fold (lb_name b) n
+  | BSByObject pkg n => equal_fold (o_selfpkg (b_for b)) pkg && equal_fold (o_selfname (b_for b)) n
+  | BSByName pkg n => equal_fold (o_selfpkg (b_for b)) pkg && equal_fold (b_name b) n
   | BSByVariant v =>
-      match locate ss (o_selfpkg (lb_for b)) with
+      match locate ss (o_selfpkg (b_for b)) with
       | None => false
       | Some s => seqb (m_kind (s_meta s)) "composable" && seqb (m_variant (s_meta s)) v && negb (seqb (m_identifier (s_meta s)) "")
       end
-  | BSGenFromDisj => is_struct_generated_from_disjunction (resolve_total ss (o_type (lb_for b)))
+  | BSGenFromDisj => is_struct_generated_from_disjunction (resolve_total ss (o_type (b_for b)))
   end.
-Definition sel_option (s : oselector) (b : lbuilder) (o : loption) : bool :=
+Definition sel_option (s : oselector) (b : builder) (o : boption) : bool :=
   match s with
-  | OSByName pkg obj names => seqb (o_selfpkg (lb_for b)) pkg && equal_fold (o_name (lb_for b)) obj && string_in_list_equal_fold (lo_name o) names
-  | OSByBuilder pkg bn names => seqb (lb_pkg b) pkg && equal_fold (lb_name b) bn && string_in_list_equal_fold (lo_name o) names
+  | OSByName pkg obj names => seqb (o_selfpkg (b_for b)) pkg && equal_fold (o_name (b_for b)) obj && string_in_list_equal_fold (op_name o) names
+  | OSByBuilder pkg bn names => seqb (b_pkg b) pkg && equal_fold (b_name b) bn && string_in_list_equal_fold (op_name o) names
   end.
 
 (* ---------------------------------------------------------------- ast/builder.go helpers *)
-Definition locate_by_object (bs : list lbuilder) (pkg name : string) : option lbuilder :=
-  find (fun b => seqb (o_selfpkg (lb_for b)) pkg && seqb (o_selfname (lb_for b)) name) bs.
-Definition locate_by_name (bs : list lbuilder) (pkg name : string) : option lbuilder :=
-  find (fun b => seqb (o_selfpkg (lb_for b)) pkg && seqb (lb_name b) name) bs.
-Definition option_by_name (b : lbuilder) (n : string) : option loption := find (fun o => equal_fold (lo_name o) n) (lb_options b).
+Definition locate_by_object (bs : list builder) (pkg name : string) : option builder :=
+  find (fun b => seqb (o_selfpkg (b_for b)) pkg && seqb (o_selfname (b_for b)) name) bs.
+Definition locate_by_name (bs : list builder) (pkg name : string) : option builder :=
+  find (fun b => seqb (o_selfpkg (b_for b)) pkg && seqb (b_name b) name) bs.
+Definition option_by_name (b : builder) (n : string) : option boption := find (fun o => equal_fold (op_name o) n) (b_options b).
 
-Definition path_from_struct_field (f : field) : path := [mkPathItem (f_name f) None (f_type f) None false].
-
-(* Builder.MakePath *)
-Fixpoint make_path_go (bs : list lbuilder) (cur : ty) (parts : list string) (acc : path) : res path :=
+(* Builder.MakePath: a new path, one item per dotted segment *)
+Fixpoint make_path_go (bs : list builder) (cur : ty) (parts : list string) (acc : path) : res path :=
   match parts with
   | [] => Ok acc
   | part :: rest =>
       do cur1 <- match cur with
                  | TRef _ p n => match locate_by_object bs p n with
-                                 | Some rb => Ok (o_type (lb_for rb))
+                                 | Some rb => Ok (o_type (b_for rb))
                                  | None => Err "reference could not be resolved"
                                  end
                  | _ => Ok cur
@@ -393,9 +322,9 @@ Fixpoint make_path_go (bs : list lbuilder) (cur : ty) (parts : list string) (acc
       | _ => Err "not a struct or a ref"
       end
   end.
-Definition make_path (bs : list lbuilder) (b : lbuilder) (s : string) : res path :=
+Definition make_path (bs : list builder) (b : builder) (s : string) : res path :=
   if seqb s "" then Err "can not make path from empty input"
-  else make_path_go bs (o_type (lb_for b)) (split_dots s) [].
+  else make_path_go bs (o_type (b_for b)) (split_dots s) [].
 
 Definition last_item (p : path) : option pathitem := last (map Some p) None.
 Definition set_last_typehint (p : path) (h : ty) : path :=
@@ -405,7 +334,7 @@ Definition set_last_typehint (p : path) (h : ty) : path :=
   end.
 
 (* ast.ConstantAssignment / ArgumentAssignment / WithTypeConstraints / FieldAssignment *)
-Definition constant_lasg (p : path) (v : dyn) : lassignment := mkLAsg p None v None "direct" [] [].
+Definition constant_asg (p : path) (v : dyn) : assignment := mkAssignment p (AValue None v None) "direct" [] [].
 Definition with_type_constraints (arg : argument) (cs : list constraint) : res (list aconstraint) :=
   mapM (fun c => match c_args c with
                  | [] => Panic "index out of range [0] with length 0"
@@ -417,7 +346,7 @@ Definition envelope_type_of (t : ty) : ty :=
   let t1 := match t with TArray _ v => v | _ => t end in
   match t1 with TMap _ _ v => v | _ => t1 end.
 
-(* AssignmentValue.AsIR; the top-level Argument is the rule's own *Argument (label given by the caller) *)
+(* AssignmentValue.AsIR *)
 Fixpoint vvalue_as_ir (ss : schemas) (p : path) (v : vvalue) : res avalue :=
   match v with
   | VValue (Some a) _ _ => Ok (AValue (Some a) DNil None)
@@ -452,37 +381,34 @@ Fixpoint vvalue_as_ir (ss : schemas) (p : path) (v : vvalue) : res avalue :=
   end.
 
 (* Assignment.AsIR *)
-Definition vassignment_as_ir (ss : schemas) (bs : list lbuilder) (root : lbuilder) (cell : label) (a : vassignment) : res lassignment :=
+Definition vassignment_as_ir (ss : schemas) (bs : list builder) (root : builder) (a : vassignment) : res assignment :=
   do p <- make_path bs root (va_path a) ;
   do v <- vvalue_as_ir ss p (va_value a) ;
-  match v with
-  | AValue arg c env => Ok (mkLAsg p (option_map (fun x => (cell, x)) arg) c env (va_method a) [] [])
-  end.
+  Ok (mkAssignment p v (va_method a) [] []).
 
-(* Option.AsIR: Args is the rule's own slice, every assignment's argument the rule's own pointer *)
-Definition voption_as_ir (ss : schemas) (bs : list lbuilder) (root : lbuilder) (base : label) (o : voption) : res loption :=
-  do asgs <- mapM (fun ja => vassignment_as_ir ss bs root (base ++ [S (fst ja)]) (snd ja))
-                  (mapi (fun j a => (j, a)) (vo_assignments o)) ;
-  Ok (mkLOpt (vo_name o) (vo_comments o) (base ++ [0]) (vo_args o) asgs None).
+(* Option.AsIR *)
+Definition voption_as_ir (ss : schemas) (bs : list builder) (root : builder) (o : voption) : res boption :=
+  do asgs <- mapM (vassignment_as_ir ss bs root) (vo_assignments o) ;
+  Ok (mkOption (vo_name o) (vo_comments o) (vo_args o) asgs None).
 
 (* ---------------------------------------------------------------- builder rules (builder/rules.go) *)
-Definition prefix_path (under : path) (a : lassignment) : lassignment := set_la_path a (under ++ la_path a).
+Definition prefix_path (under : path) (a : assignment) : assignment := set_as_path a (path_append under (as_path a)).
 
-(* mergeBuilderInto: options and constant assignments are copied shallowly (labels kept) *)
-Definition merge_builder_into (from into : lbuilder) (under : path) (exclude : list string) (renames : list (string * string)) : lbuilder :=
-  let consts := filter (fun a => negb (dyn_is_nil (la_const a))) (lc_assignments (lb_ctor from)) in
+(* mergeBuilderInto *)
+Definition merge_builder_into (from into : builder) (under : path) (exclude : list string) (renames : list (string * string)) : builder :=
+  let consts := filter (fun a => negb (dyn_is_nil (as_const a))) (ct_assignments (b_ctor from)) in
   let opts := flat_map (fun o =>
-                if item_in_list (lo_name o) exclude then []
-                else [mkLOpt (match alist_find renames (lo_name o) with Some n => n | None => lo_name o end)
-                             (lo_comments o) (lo_argsl o) (lo_args o) (map (prefix_path under) (lo_assignments o)) (lo_default o)])
-              (lb_options from) in
-  mkLB (lb_for into) (lb_pkg into) (lb_name into) (lb_props into)
-       (mkLCtor (lc_args (lb_ctor into)) (lc_assignments (lb_ctor into) ++ map (prefix_path under) consts))
-       (lb_options into ++ opts) (lb_factories into ++ lb_factories from).
+                if item_in_list (op_name o) exclude then []
+                else [mkOption (match alist_find renames (op_name o) with Some n => n | None => op_name o end)
+                               (op_comments o) (op_args o) (map (prefix_path under) (op_assignments o)) (op_default o)])
+              (b_options from) in
+  mkBuilder (b_for into) (b_pkg into) (b_name into) (b_props into)
+            (mkConstructor (ct_args (b_ctor into)) (ct_assignments (b_ctor into) ++ map (prefix_path under) consts))
+            (b_options into ++ opts) (b_factories into ++ b_factories from).
 
 (* mapToSelected: in place, in order; a later builder sees what was done to an earlier one *)
-Fixpoint map_to_selected_go (sel : lbuilder -> bool) (f : list lbuilder -> lbuilder -> res lbuilder)
-                            (todo i : nat) (bs : list lbuilder) : res (list lbuilder) :=
+Fixpoint map_to_selected_go (sel : builder -> bool) (f : list builder -> builder -> res builder)
+                            (todo i : nat) (bs : list builder) : res (list builder) :=
   match todo with
   | O => Ok bs
   | S t =>
@@ -492,150 +418,151 @@ Fixpoint map_to_selected_go (sel : lbuilder -> bool) (f : list lbuilder -> lbuil
                   else map_to_selected_go sel f t (S i) bs
       end
   end.
-Definition map_to_selected sel f (bs : list lbuilder) : res (list lbuilder) := map_to_selected_go sel f (List.length bs) 0 bs.
+Definition map_to_selected sel f (bs : list builder) : res (list builder) := map_to_selected_go sel f (List.length bs) 0 bs.
 
-Definition omit_rule (ss : schemas) (s : bselector) (bs : list lbuilder) : list lbuilder :=
+Definition omit_rule (ss : schemas) (s : bselector) (bs : list builder) : list builder :=
   filter (fun b => negb (sel_builder ss s b)) bs.
 
-Definition rename_rule (ss : schemas) (s : bselector) (n : string) (bs : list lbuilder) : list lbuilder :=
+Definition rename_rule (ss : schemas) (s : bselector) (n : string) (bs : list builder) : list builder :=
   map (fun b => if sel_builder ss s b then set_name b n else b) bs.
 
+Definition merge_into_builder (src under : string) (excl : list string) (ren : list (string * string))
+                              (cur : list builder) (dest : builder) : res builder :=
+  match locate_by_name cur (o_selfpkg (b_for dest)) src with
+  | None => Ok dest
+  | Some source => do root <- make_path cur dest under ; Ok (merge_builder_into source dest root excl ren)
+  end.
 Definition merge_into_rule (ss : schemas) (s : bselector) (src under : string) (excl : list string) (ren : list (string * string))
-                           (bs : list lbuilder) : res (list lbuilder) :=
-  map_to_selected (sel_builder ss s)
-    (fun cur dest =>
-       match locate_by_name cur (o_selfpkg (lb_for dest)) src with
-       | None => Ok dest
-       | Some source => do root <- make_path cur dest under ; Ok (merge_builder_into source dest root excl ren)
-       end) bs.
+                           (bs : list builder) : res (list builder) :=
+  map_to_selected (sel_builder ss s) (merge_into_builder src under excl ren) bs.
 
-Definition properties_rule (ss : schemas) (s : bselector) (ps : list field) (bs : list lbuilder) : list lbuilder :=
-  map (fun b => if sel_builder ss s b then set_props b (lb_props b ++ ps) else b) bs.
+Definition properties_rule (ss : schemas) (s : bselector) (ps : list field) (bs : list builder) : list builder :=
+  map (fun b => if sel_builder ss s b then set_props b (b_props b ++ ps) else b) bs.
 
-(* Duplicate: deep copies (fresh cells) appended after all the builders *)
-Definition duplicate_rule (ss : schemas) (t : nat) (s : bselector) (n : string) (excl : list string) (bs : list lbuilder) : list lbuilder :=
-  bs ++ flat_map (fun ib =>
-          if sel_builder ss s (snd ib) then
-            let d := set_name (builder_deep_copy [t; fst ib] (snd ib)) n in
-            [match excl with
-             | [] => d
-             | _ => set_options d (filter (fun o => negb (string_in_list_equal_fold (lo_name o) excl)) (lb_options d))
-             end]
-          else []) (mapi (fun i b => (i, b)) bs).
+(* Duplicate: deep copies appended after all the builders *)
+Definition duplicate_builder (n : string) (excl : list string) (b : builder) : builder :=
+  let d := set_name (builder_deep_copy b) n in
+  match excl with
+  | [] => d
+  | _ => set_options d (filter (fun o => negb (string_in_list_equal_fold (op_name o) excl)) (b_options d))
+  end.
+Definition duplicate_rule (ss : schemas) (s : bselector) (n : string) (excl : list string) (bs : list builder) : list builder :=
+  bs ++ map (duplicate_builder n excl) (filter (sel_builder ss s) bs).
 
-Definition initialize_builder (bs : list lbuilder) (set : list (string * dyn)) (b : lbuilder) : res lbuilder :=
-  do asgs <- mapM (fun pv => do p <- make_path bs b (fst pv) ; Ok (constant_lasg p (snd pv))) set ;
-  Ok (set_ctor b (mkLCtor (lc_args (lb_ctor b)) (lc_assignments (lb_ctor b) ++ asgs))).
-Definition initialize_rule (ss : schemas) (s : bselector) (set : list (string * dyn)) (bs : list lbuilder) : res (list lbuilder) :=
+Definition initialize_builder (bs : list builder) (set : list (string * dyn)) (b : builder) : res builder :=
+  do asgs <- mapM (fun pv => do p <- make_path bs b (fst pv) ; Ok (constant_asg p (snd pv))) set ;
+  Ok (set_ctor b (mkConstructor (ct_args (b_ctor b)) (ct_assignments (b_ctor b) ++ asgs))).
+Definition initialize_rule (ss : schemas) (s : bselector) (set : list (string * dyn)) (bs : list builder) : res (list builder) :=
   mapM (fun b => if sel_builder ss s b then initialize_builder bs set b else Ok b) bs.
 
 (* PromoteOptionsToConstructor: the constructor receives a copy of Args[0] (not nullable) and the
-   option's first assignment itself (same *Argument as the option keeps) *)
-Fixpoint promote_options (b : lbuilder) (names : list string) (c : lconstructor) : res lconstructor :=
+   option's first assignment *)
+Fixpoint promote_options (b : builder) (names : list string) (c : constructor) : res constructor :=
   match names with
   | [] => Ok c
   | n :: rest =>
       match option_by_name b n with
       | None => promote_options b rest c
       | Some o =>
-          match lo_args o, lo_assignments o with
+          match op_args o, op_assignments o with
           | [], _ => Panic "index out of range [0] with length 0"
           | _ :: _, [] => Panic "index out of range [0] with length 0"
           | a :: _, asg :: _ =>
-              promote_options b rest (mkLCtor (lc_args c ++ [mkArg (a_name a) (set_nullable (a_type a) false)]) (lc_assignments c ++ [asg]))
+              promote_options b rest (mkConstructor (ct_args c ++ [mkArg (a_name a) (set_nullable (a_type a) false)]) (ct_assignments c ++ [asg]))
           end
       end
   end.
-Definition promote_rule (ss : schemas) (s : bselector) (names : list string) (bs : list lbuilder) : res (list lbuilder) :=
+Definition promote_rule (ss : schemas) (s : bselector) (names : list string) (bs : list builder) : res (list builder) :=
   mapM (fun b => if sel_builder ss s b then
-                   match lb_factories b with
+                   match b_factories b with
                    | _ :: _ => Err "constructor arguments can not be added to builders that have factories"
-                   | [] => do c <- promote_options b names (lb_ctor b) ; Ok (set_ctor b c)
+                   | [] => do c <- promote_options b names (b_ctor b) ; Ok (set_ctor b c)
                    end
                  else Ok b) bs.
 
-Definition add_option_rule (ss : schemas) (t : nat) (s : bselector) (o : voption) (bs : list lbuilder) : res (list lbuilder) :=
-  mapM (fun b => if sel_builder ss s b then do no <- voption_as_ir ss bs b [t] o ; Ok (set_options b (lb_options b ++ [no])) else Ok b) bs.
+Definition add_option_rule (ss : schemas) (s : bselector) (o : voption) (bs : list builder) : res (list builder) :=
+  mapM (fun b => if sel_builder ss s b then do no <- voption_as_ir ss bs b o ; Ok (set_options b (b_options b ++ [no])) else Ok b) bs.
 
-Definition add_factory_rule (ss : schemas) (s : bselector) (f : factory) (bs : list lbuilder) : res (list lbuilder) :=
+Definition add_factory_rule (ss : schemas) (s : bselector) (f : factory) (bs : list builder) : res (list builder) :=
   mapM (fun b => if sel_builder ss s b then
-                   match lc_args (lb_ctor b) with
+                   match ct_args (b_ctor b) with
                    | _ :: _ => Err "builder factories can not be defined on builders that accept parameters in their constructor"
-                   | [] => Ok (set_factories b (lb_factories b ++ [f]))
+                   | [] => Ok (set_factories b (b_factories b ++ [f]))
                    end
                  else Ok b) bs.
 
 (* composeBuilderForType *)
-Definition entrypoint_options (base : label) (root : path) (ept : ty) (resolved : ty) : option (list loption) :=
+Definition entrypoint_options (root : path) (ept : ty) (resolved : ty) : option (list boption) :=
   if is_struct_generated_from_disjunction resolved then
-    Some (mapi (fun n f =>
+    Some (map (fun f =>
             let arg := mkArg (f_name f) (f_type f) in
-            mkLOpt (f_name f) [] (base ++ [n; 0]) [arg]
-                   [mkLAsg (set_last_typehint root ept ++ path_from_struct_field f) (Some (base ++ [n; 1], arg)) DNil None "direct" [] []] None)
+            mkOption (f_name f) [] [arg]
+                     [mkAssignment (path_append_struct_field (set_last_typehint root ept) f) (AValue (Some arg) DNil None) "direct" [] []] None)
           (struct_fields resolved))
   else match resolved with
        | TDisj _ d =>
-           Some (mapi (fun n br =>
+           Some (map (fun br =>
                    let arg := mkArg (type_name br) br in
-                   mkLOpt (type_name br) [] (base ++ [n; 0]) [arg]
-                          [mkLAsg (set_last_typehint root ept) (Some (base ++ [n; 1], arg)) DNil None "direct" [] []] None)
+                   mkOption (type_name br) [] [arg]
+                            [mkAssignment (set_last_typehint root ept) (AValue (Some arg) DNil None) "direct" [] []] None)
                  (d_branches d))
        | _ => None
        end.
 
-Fixpoint compose_merge (all : list lbuilder) (c : ycompose) (nb : lbuilder) (composables : list lbuilder) (kept : list lbuilder)
-  : res (lbuilder * list lbuilder) :=
+Fixpoint compose_merge (all : list builder) (c : ycompose) (nb : builder) (composables : list builder) (kept : list builder)
+  : res (builder * list builder) :=
   match composables with
   | [] => Ok (nb, kept)
   | cb :: rest =>
-      match alist_find (yc_map c) (o_name (lb_for cb)) with
+      match alist_find (yc_map c) (o_name (b_for cb)) with
       | None => compose_merge all c nb rest (kept ++ [cb])
       | Some under =>
           do root <- make_path all nb under ;
-          let root' := set_last_typehint root (TRef A0 (o_selfpkg (lb_for cb)) (o_selfname (lb_for cb))) in
+          let root' := set_last_typehint root (TRef A0 (o_selfpkg (b_for cb)) (o_selfname (b_for cb))) in
           compose_merge all c (merge_builder_into cb nb root' [] []) rest (if yc_preserve c then kept ++ [cb] else kept)
       end
   end.
 
-Definition compose_builder_for_type (ss : schemas) (all : list lbuilder) (base : label) (c : ycompose) (disc : string)
-                                    (source : lbuilder) (composables : list lbuilder) : res (list lbuilder) :=
+Definition compose_builder_for_type (ss : schemas) (all : list builder) (c : ycompose) (disc : string)
+                                    (source : builder) (composables : list builder) : res (list builder) :=
   match composables with
   | [] => Panic "index out of range [0] with length 0"
   | c0 :: _ =>
-      match o_type (lb_for source) with
+      match o_type (b_for source) with
       | TStruct _ _ fs =>
           match field_by_name fs (yc_disc_field c) with
           | None => Err "could not find plugin discriminator field"
           | Some tf =>
-              let nb0 := mkLB (lb_for source) (lb_pkg c0)
-                              (if seqb (yc_name c) "" then o_name (lb_for source) else yc_name c)
-                              (lb_props source)
-                              (mkLCtor (lc_args (lb_ctor source))
-                                       (lc_assignments (lb_ctor source) ++ [constant_lasg (path_from_struct_field tf) (DStr disc)]))
-                              (filter (fun o => negb (seqb (lo_name o) (yc_disc_field c)) &&
-                                                negb (string_in_list_equal_fold (lo_name o) (yc_exclude c)))
-                                      (lb_options source))
-                              [] in
+              (* Constructor: sourceBuilder.Constructor.DeepCopy(), Properties copied *)
+              let nb0 := mkBuilder (b_for source) (b_pkg c0)
+                                   (if seqb (yc_name c) "" then o_name (b_for source) else yc_name c)
+                                   (b_props source)
+                                   (mkConstructor (ct_args (b_ctor source))
+                                                  (ct_assignments (b_ctor source) ++ [constant_asg (path_from_struct_field tf) (DStr disc)]))
+                                   (filter (fun o => negb (seqb (op_name o) (yc_disc_field c)) &&
+                                                     negb (string_in_list_equal_fold (op_name o) (yc_exclude c)))
+                                           (b_options source))
+                                   [] in
               do mk <- compose_merge all c nb0 composables [] ;
               let '(nb1, kept) := mk in
               match alist_find (yc_map c) "__schema_entrypoint" with
               | None => Ok (kept ++ [nb1])
               | Some ep =>
                   if seqb ep "" then Ok (kept ++ [nb1]) else
-                  match locate ss (lb_pkg c0) with
+                  match locate ss (b_pkg c0) with
                   | None => Panic "invalid memory address or nil pointer dereference"
                   | Some sch =>
                       if seqb (s_entry sch) "" then Err "schema does not have an entrypoint" else
                       do root <- make_path all nb1 ep ;
                       let resolved := resolve_total ss (s_entrytype sch) in
-                      match entrypoint_options base root (s_entrytype sch) resolved with
-                      | Some opts => Ok (kept ++ [set_options nb1 (lb_options nb1 ++ opts)])
+                      match entrypoint_options root (s_entrytype sch) resolved with
+                      | Some opts => Ok (kept ++ [set_options nb1 (b_options nb1 ++ opts)])
                       | None =>
                           if is_struct resolved then
                             match locate_by_object composables (s_pkg sch) (s_entry sch) with
                             | None => Err "builder for schema entrypoint not found"
                             | Some eb =>
-                                let root' := set_last_typehint root (TRef A0 (o_selfpkg (lb_for eb)) (o_selfname (lb_for eb))) in
+                                let root' := set_last_typehint root (TRef A0 (o_selfpkg (b_for eb)) (o_selfname (b_for eb))) in
                                 Ok (kept ++ [merge_builder_into eb nb1 root' [] []])
                             end
                           else Err "entrypoint: not implemented"
@@ -647,15 +574,20 @@ Definition compose_builder_for_type (ss : schemas) (all : list lbuilder) (base :
       end
   end.
 
-(* grouping by schema identifier; Go ranges over a map here: the order of the groups in the
-   result is not determined by the code (the model takes first-occurrence order) *)
-Fixpoint group_add (k : string) (b : lbuilder) (g : list (string * list lbuilder)) : list (string * list lbuilder) :=
+(* grouping by schema identifier; the groups are processed in the sorted order of the identifiers
+   (sort.Strings on the keys of the Go map, /repo 6494f77) *)
+Fixpoint group_add (k : string) (b : builder) (g : list (string * list builder)) : list (string * list builder) :=
   match g with
   | [] => [(k, [b])]
-  | (k', l) :: r => if seqb k' k then (k', l ++ [b]) :: r else (k', l) :: group_add k b r
+  | (k', l) :: r =>
+      match String.compare k k' with
+      | Eq => (k', l ++ [b]) :: r
+      | Lt => (k, [b]) :: (k', l) :: r
+      | Gt => (k', l) :: group_add k b r
+      end
   end.
 
-Definition compose_rule (ss : schemas) (t : nat) (s : bselector) (c : ycompose) (bs : list lbuilder) : res (list lbuilder) :=
+Definition compose_rule (ss : schemas) (s : bselector) (c : ycompose) (bs : list builder) : res (list builder) :=
   match cut_dot (yc_source c) with
   | None => Err "SourceBuilderName is incorrect: no package found"
   | Some (spkg, sname) =>
@@ -665,106 +597,89 @@ Definition compose_rule (ss : schemas) (t : nat) (s : bselector) (c : ycompose) 
           let unselected := filter (fun b => negb (sel_builder ss s b)) bs in
           let groups := fold_left (fun g b =>
                           if sel_builder ss s b then
-                            match locate ss (o_selfpkg (lb_for b)) with
+                            match locate ss (o_selfpkg (b_for b)) with
                             | None => g
                             | Some sch => group_add (m_identifier (s_meta sch)) b g
                             end
                           else g) bs [] in
-          do composed <- mapM (fun ig => compose_builder_for_type ss bs [t; fst ig] c (fst (snd ig)) source (snd (snd ig)))
-                              (mapi (fun i g => (i, g)) groups) ;
+          do composed <- mapM (fun g => compose_builder_for_type ss bs c (fst g) source (snd g)) groups ;
           Ok (unselected ++ List.concat composed)
       end
   end.
 
-Definition apply_builder_rule (ss : schemas) (t : nat) (r : brule) (bs : list lbuilder) : res (list lbuilder) :=
+Definition apply_builder_rule (ss : schemas) (r : brule) (bs : list builder) : res (list builder) :=
   match r with
   | BROmit s => Ok (omit_rule ss s bs)
   | BRRename s n => Ok (rename_rule ss s n bs)
   | BRMergeInto s src under excl ren => merge_into_rule ss s src under excl ren bs
-  | BRCompose s c => compose_rule ss t s c bs
+  | BRCompose s c => compose_rule ss s c bs
   | BRProperties s ps => Ok (properties_rule ss s ps bs)
-  | BRDuplicate s n excl => Ok (duplicate_rule ss t s n excl bs)
+  | BRDuplicate s n excl => Ok (duplicate_rule ss s n excl bs)
   | BRInitialize s set => initialize_rule ss s set bs
   | BRPromote s names => promote_rule ss s names bs
-  | BRAddOption s o => add_option_rule ss t s o bs
+  | BRAddOption s o => add_option_rule ss s o bs
   | BRAddFactory s f => add_factory_rule ss s f bs
   end.
 
 (* ---------------------------------------------------------------- option actions (option/actions.go) *)
-Definition action_result := (list loption * list effect)%type.
+Definition rename_action (n : string) (o : boption) : list boption := [set_oname o n].
 
-Definition rename_action (n : string) (o : loption) : action_result := ([set_oname o n], []).
-
-(* RenameArgumentsAction: both loops in Go order; every write is by cell *)
-Fixpoint rename_arguments_go (argsl : label) (i : nat) (todo : list (argument * string))
-                             (args : list argument) (asgs : list lassignment) (effs : list effect)
-  : list argument * list lassignment * list effect :=
-  match todo with
-  | [] => (args, asgs, effs)
-  | (a, n) :: rest =>
-      let prev := a_name a in
-      let args1 := set_nth_name i n args in
-      let '(asgs1, effs1) :=
-        fold_left (fun (acc : list lassignment * list effect) (j : nat) =>
-                     let '(cur, es) := acc in
-                     match nth_error cur j with
-                     | Some asg =>
-                         match la_arg asg with
-                         | Some (l, x) => if seqb (a_name x) prev
-                                          then (map (apply_effect_asg (ESetCellName l n)) cur, es ++ [ESetCellName l n])
-                                          else (cur, es)
-                         | None => (cur, es)
-                         end
-                     | None => (cur, es)
-                     end)
-                  (seq 0 (List.length asgs)) (asgs, effs ++ [ESetArgName argsl i n]) in
-      rename_arguments_go argsl (S i) rest args1 asgs1 effs1
+(* RenameArgumentsAction: on copies of Args and Assignments; for each argument in turn, every
+   assignment whose value argument CURRENTLY carries the argument's previous name gets a renamed
+   copy of it (constraints and path indices keep their own copies untouched) *)
+Definition rename_value_arg (prev n : string) (a : assignment) : assignment :=
+  match as_arg a with
+  | Some x => if seqb (a_name x) prev then set_as_arg a (Some (set_arg_name x n)) else a
+  | None => a
   end.
-Definition rename_arguments_action (names : list string) (o : loption) : action_result :=
-  if negb (Nat.eqb (List.length names) (List.length (lo_args o))) then ([o], [])
-  else let '(args, asgs, effs) := rename_arguments_go (lo_argsl o) 0 (combine (lo_args o) names) (lo_args o) (lo_assignments o) [] in
-       ([mkLOpt (lo_name o) (lo_comments o) (lo_argsl o) args asgs (lo_default o)], effs).
+Fixpoint rename_arguments_go (i : nat) (todo : list (argument * string)) (args : list argument) (asgs : list assignment)
+  : list argument * list assignment :=
+  match todo with
+  | [] => (args, asgs)
+  | (a, n) :: rest => rename_arguments_go (S i) rest (set_nth_name i n args) (map (rename_value_arg (a_name a) n) asgs)
+  end.
+Definition rename_arguments_action (names : list string) (o : boption) : list boption :=
+  if negb (Nat.eqb (List.length names) (List.length (op_args o))) then [o]
+  else let '(args, asgs) := rename_arguments_go 0 (combine (op_args o) names) (op_args o) (op_assignments o) in
+       [mkOption (op_name o) (op_comments o) args asgs (op_default o)].
 
 (* ArrayToAppendAction *)
-Definition array_to_append_action (base : label) (o : loption) : res action_result :=
-  match lo_args o with
+Definition array_to_append_action (o : boption) : res (list boption) :=
+  match op_args o with
   | [a] =>
       match a_type a with
       | TArray _ v =>
-          match lo_assignments o with
+          match op_assignments o with
           | [] => Panic "index out of range [0] with length 0"
           | first :: rest =>
               let na := mkArg (singularize (a_name a)) v in
-              let effs := match la_arg first with Some (l, _) => [ESetCell l na] | None => [] end in
-              let first' := set_la_method (match la_arg first with Some (l, _) => set_la_arg first (Some (l, na)) | None => first end) "append" in
-              let rest' := map (fun x => fold_left (fun y e => apply_effect_asg e y) effs x) rest in
-              Ok ([mkLOpt (lo_name o) (lo_comments o) (base ++ [0]) [na] (first' :: rest') (lo_default o)], effs)
+              let first' := set_as_method (match as_arg first with Some _ => set_as_arg first (Some na) | None => first end) "append" in
+              Ok [mkOption (op_name o) (op_comments o) [na] (first' :: rest) (op_default o)]
           end
-      | _ => Ok ([o], [])
+      | _ => Ok [o]
       end
-  | _ => Ok ([o], [])
+  | _ => Ok [o]
   end.
 
 (* MapToIndexAction *)
-Definition map_to_index_action (base : label) (o : loption) : res action_result :=
-  match lo_args o with
+Definition index_item (key : argument) (vt : ty) : pathitem := mkPathItem "" (Some (mkPathIndex (Some key) DNil)) vt None false.
+Definition map_to_index_action (o : boption) : res (list boption) :=
+  match op_args o with
   | [a] =>
       match a_type a with
       | TMap _ it vt =>
-          match lo_assignments o with
+          match op_assignments o with
           | [] => Panic "index out of range [0] with length 0"
           | first :: rest =>
               let ka := mkArg "key" it in
               let va := mkArg (singularize (a_name a)) vt in
-              let effs := match la_arg first with Some (l, _) => [ESetCell l va] | None => [] end in
-              let first1 := match la_arg first with Some (l, _) => set_la_arg first (Some (l, va)) | None => first end in
-              let first' := set_la_method (set_la_path first1 (la_path first ++ [mkPathItem "" (Some (mkPathIndex (Some ka) DNil)) vt None false])) "index" in
-              let rest' := map (fun x => fold_left (fun y e => apply_effect_asg e y) effs x) rest in
-              Ok ([mkLOpt (lo_name o) (lo_comments o) (base ++ [0]) [ka; va] (first' :: rest') (lo_default o)], effs)
+              let first1 := match as_arg first with Some _ => set_as_arg first (Some va) | None => first end in
+              let first' := set_as_method (set_as_path first1 (path_append (as_path first) [index_item ka vt])) "index" in
+              Ok [mkOption (op_name o) (op_comments o) [ka; va] (first' :: rest) (op_default o)]
           end
-      | _ => Ok ([o], [])
+      | _ => Ok [o]
       end
-  | _ => Ok ([o], [])
+  | _ => Ok [o]
   end.
 
 (* the struct the first argument stands for (one level of reference only: LocateObject, not ResolveToType) *)
@@ -779,10 +694,10 @@ Definition dmap_entries (d : option (list dyn)) : list (string * dyn) :=
   match d with Some [DMap l] => l | _ => [] end.
 
 (* StructFieldsAsArgumentsAction *)
-Record sfa_acc := mkSfa { sa_args : list argument ; sa_asgs : list lassignment ; sa_env : list (path * avalue) ; sa_defs : list dyn }.
-Definition sfa_field (base : label) (prefix : path) (into_list : bool) (method : string) (defaults : list (string * dyn))
-                     (acc : sfa_acc) (nf : nat * field) : res sfa_acc :=
-  let '(n, f) := nf in
+Record sfa_acc := mkSfa { sa_args : list argument ; sa_asgs : list assignment ; sa_env : list (path * avalue) ; sa_defs : list dyn }.
+Definition scalar_value (t : ty) : dyn := match t with TScalar _ _ x _ => x | _ => DNil end.
+Definition sfa_field (prefix : path) (into_list : bool) (method : string) (defaults : list (string * dyn))
+                     (acc : sfa_acc) (f : field) : res sfa_acc :=
   let ft := match alist_find defaults (f_name f) with Some d => set_default (f_type f) d | None => f_type f end in
   let arg := mkArg (f_name f) ft in
   let is_const := is_concrete_scalar ft in
@@ -793,279 +708,206 @@ Definition sfa_field (base : label) (prefix : path) (into_list : bool) (method :
                | None => sa_defs acc
                end in
   if into_list then
-    let v := if is_const then AValue None (match ft with TScalar _ _ x _ => x | _ => DNil end) None else AValue (Some arg) DNil None in
+    let v := if is_const then AValue None (scalar_value ft) None else AValue (Some arg) DNil None in
     Ok (mkSfa args' (sa_asgs acc) (sa_env acc ++ [([item], v)]) defs')
   else if is_const then
-    Ok (mkSfa args' (sa_asgs acc ++ [constant_lasg (prefix ++ [item]) (match ft with TScalar _ _ x _ => x | _ => DNil end)]) (sa_env acc) defs')
+    Ok (mkSfa args' (sa_asgs acc ++ [constant_asg (path_append prefix [item]) (scalar_value ft)]) (sa_env acc) defs')
   else
     do cs <- with_type_constraints arg (scalar_constraints (f_type f)) ;
-    Ok (mkSfa args' (sa_asgs acc ++ [mkLAsg (prefix ++ [item]) (Some (base ++ [S n], arg)) DNil None method cs []]) (sa_env acc) defs').
+    Ok (mkSfa args' (sa_asgs acc ++ [mkAssignment (path_append prefix [item]) (AValue (Some arg) DNil None) method cs []]) (sa_env acc) defs').
 
 Fixpoint foldM {A B} (f : A -> B -> res A) (l : list B) (a : A) : res A :=
   match l with [] => Ok a | x :: r => do a' <- f a x ; foldM f r a' end.
 
-Definition struct_fields_as_arguments_action (ss : schemas) (base : label) (explicit : option (list string)) (o : loption) : res action_result :=
-  match lo_args o with
-  | [] => Ok ([o], [])
+Definition struct_fields_as_arguments_action (ss : schemas) (explicit : option (list string)) (o : boption) : res (list boption) :=
+  match op_args o with
+  | [] => Ok [o]
   | a0 :: other_args =>
       match first_arg_struct ss (a_type a0) with
       | TStruct _ _ fs =>
-          match lo_assignments o with
+          match op_assignments o with
           | [] => Panic "index out of range [0] with length 0"
           | first :: other_asgs =>
-              match last_item (la_path first) with
+              match last_item (as_path first) with
               | None => Panic "index out of range [-1]"
               | Some lastit =>
                   let into_list := is_array (pi_type lastit) in
-                  let defaults := dmap_entries (lo_default o) in
-                  do acc <- foldM (sfa_field base (la_path first) into_list (la_method first) defaults)
-                                  (filter (fun nf => field_selected explicit (snd nf)) (mapi (fun n f => (n, f)) fs))
-                                  (mkSfa [] [] [] []) ;
+                  let defaults := dmap_entries (op_default o) in
+                  do acc <- foldM (sfa_field (as_path first) into_list (as_method first) defaults)
+                                  (filter (field_selected explicit) fs) (mkSfa [] [] [] []) ;
                   let asgs := if into_list
-                              then [mkLAsg (la_path first) None DNil
-                                           (Some (match pi_type lastit with TArray _ v => v | t => t end, sa_env acc)) "append" [] []]
+                              then [mkAssignment (as_path first)
+                                                 (AValue None DNil (Some (match pi_type lastit with TArray _ v => v | t => t end, sa_env acc)))
+                                                 "append" [] []]
                               else sa_asgs acc in
                   let dflt := match sa_defs acc with [] => None | l => Some l end in
-                  Ok ([mkLOpt (lo_name o) (lo_comments o) (base ++ [0])
-                              (match other_args with [] => sa_args acc | _ => sa_args acc ++ other_args end)
-                              (match other_args with [] => asgs | _ => asgs ++ other_asgs end) dflt], [])
+                  Ok [mkOption (op_name o) (op_comments o)
+                               (match other_args with [] => sa_args acc | _ => sa_args acc ++ other_args end)
+                               (match other_args with [] => asgs | _ => asgs ++ other_asgs end) dflt]
               end
           end
-      | _ => Ok ([o], [])
+      | _ => Ok [o]
       end
   end.
 
 (* StructFieldsAsOptionsAction *)
-Definition struct_fields_as_options_action (ss : schemas) (base : label) (explicit : option (list string)) (o : loption) : res action_result :=
-  match lo_args o with
-  | [] => Ok ([o], [])
+Definition field_option (prefix : path) (f : field) : res boption :=
+  let arg := mkArg (f_name f) (f_type f) in
+  do cs <- with_type_constraints arg (scalar_constraints (f_type f)) ;
+  Ok (mkOption (f_name f) (f_comments f) [arg]
+               [mkAssignment (path_append prefix (path_from_struct_field f)) (AValue (Some arg) DNil None) "direct" cs []]
+               (match dflt (ty_attrs (f_type f)) with DNil => None | d => Some [d] end)).
+Definition struct_fields_as_options_action (ss : schemas) (explicit : option (list string)) (o : boption) : res (list boption) :=
+  match op_args o with
+  | [] => Ok [o]
   | a0 :: _ =>
       match first_arg_struct ss (a_type a0) with
       | TStruct _ _ fs =>
-          match lo_assignments o with
+          match op_assignments o with
           | [] => Panic "index out of range [0] with length 0"
-          | first :: _ =>
-              do opts <- mapM (fun nf =>
-                           let '(n, f) := nf in
-                           let arg := mkArg (f_name f) (f_type f) in
-                           do cs <- with_type_constraints arg (scalar_constraints (f_type f)) ;
-                           Ok (mkLOpt (f_name f) (f_comments f) (base ++ [n; 0]) [arg]
-                                      [mkLAsg (la_path first ++ path_from_struct_field f) (Some (base ++ [n; 1], arg)) DNil None "direct" cs []]
-                                      (match dflt (ty_attrs (f_type f)) with DNil => None | d => Some [d] end)))
-                         (filter (fun nf => field_selected explicit (snd nf)) (mapi (fun n f => (n, f)) fs)) ;
-              Ok (opts, [])
+          | first :: _ => mapM (field_option (as_path first)) (filter (field_selected explicit) fs)
           end
-      | _ => Ok ([o], [])
+      | _ => Ok [o]
       end
   end.
 
 (* disjunctionAsOptions / disjunctionStructAsOptions: one deep copy of the option per branch *)
-Fixpoint replace_first_using (argname : string) (mk : lassignment -> lassignment) (l : list lassignment) : list lassignment :=
+Fixpoint replace_first_using (argname : string) (mk : assignment -> assignment) (l : list assignment) : list assignment :=
   match l with
   | [] => []
-  | a :: r => match la_arg a with
-              | Some (_, x) => if seqb (a_name x) argname then mk a :: r else a :: replace_first_using argname mk r
+  | a :: r => match as_arg a with
+              | Some x => if seqb (a_name x) argname then mk a :: r else a :: replace_first_using argname mk r
               | None => a :: replace_first_using argname mk r
               end
   end.
-Definition disjunction_branch_option (base : label) (n : nat) (o : loption) (idx : nat) (target : argument)
-                                     (name : string) (arg : argument) (dfl : dyn) (mk : label -> lassignment -> lassignment) : loption :=
-  let clone := option_deep_copy (base ++ [n]) o in
-  mkLOpt name [] (lo_argsl clone) (firstn idx (lo_args clone) ++ [arg] ++ skipn (S idx) (lo_args o))
-         (replace_first_using (a_name target) (mk (base ++ [n; 0; 0])) (lo_assignments clone))
-         (match dfl with DNil => None | d => Some [d] end).
+Definition disjunction_branch_option (o : boption) (idx : nat) (target : argument)
+                                     (name : string) (arg : argument) (dfl : dyn) (mk : assignment -> assignment) : boption :=
+  let clone := option_deep_copy o in
+  mkOption name [] (firstn idx (op_args clone) ++ [arg] ++ skipn (S idx) (op_args o))
+           (replace_first_using (a_name target) mk (op_assignments clone))
+           (match dfl with DNil => None | d => Some [d] end).
 
-Definition disjunction_as_options_action (ss : schemas) (base : label) (idx : Z) (o : loption) : res action_result :=
-  match lo_args o with
-  | [] => Ok ([o], [])
+Definition disjunction_as_options_action (ss : schemas) (idx : Z) (o : boption) : res (list boption) :=
+  match op_args o with
+  | [] => Ok [o]
   | _ =>
       if (idx <? 0)%Z then Panic "index out of range" else
-      match nth_error (lo_args o) (Z.to_nat idx) with
+      match nth_error (op_args o) (Z.to_nat idx) with
       | None => Panic "index out of range"
       | Some target =>
           match a_type target with
           | TDisj _ d =>
-              Ok (mapi (fun n br =>
+              Ok (map (fun br =>
                     let nm := lower_camel_case (type_name br) in
                     let arg := mkArg nm br in
-                    disjunction_branch_option base n o (Z.to_nat idx) target nm arg (dflt (ty_attrs br))
-                      (fun cell a => mkLAsg (la_path a) (Some (cell, arg)) DNil None (la_method a) [] []))
-                  (d_branches d), [])
+                    disjunction_branch_option o (Z.to_nat idx) target nm arg (dflt (ty_attrs br))
+                      (fun a => mkAssignment (as_path a) (AValue (Some arg) DNil None) (as_method a) [] []))
+                  (d_branches d))
           | TRef _ _ _ =>
               let referred := resolve_total ss (a_type target) in
               if is_struct_generated_from_disjunction referred then
-                Ok (mapi (fun n f =>
+                Ok (map (fun f =>
                       let arg := mkArg (f_name f) (f_type f) in
-                      disjunction_branch_option base n o (Z.to_nat idx) target (f_name f) arg (dflt (ty_attrs (f_type f)))
-                        (fun _ a => mkLAsg (la_path a) None DNil
-                                           (Some (a_type target, [(path_from_struct_field f, AValue (Some arg) DNil None)]))
-                                           (la_method a) [] []))
-                    (struct_fields referred), [])
-              else Ok ([o], [])
-          | _ => Ok ([o], [])
+                      disjunction_branch_option o (Z.to_nat idx) target (f_name f) arg (dflt (ty_attrs (f_type f)))
+                        (fun a => mkAssignment (as_path a)
+                                    (AValue None DNil (Some (a_type target, [(path_from_struct_field f, AValue (Some arg) DNil None)])))
+                                    (as_method a) [] []))
+                    (struct_fields referred))
+              else Ok [o]
+          | _ => Ok [o]
           end
       end
   end.
 
 (* UnfoldBooleanAction *)
-Definition unfold_boolean_action (tname fname : string) (o : loption) : res action_result :=
-  match lo_assignments o with
+Definition unfold_boolean_action (tname fname : string) (o : boption) : res (list boption) :=
+  match op_assignments o with
   | [] => Panic "index out of range [0] with length 0"
   | first :: _ =>
-      match last_item (la_path first) with
+      match last_item (as_path first) with
       | None => Panic "index out of range [-1]"
       | Some it =>
           if is_bool_scalar (pi_type it) then
-            do dd <- match lo_default o with
+            do dd <- match op_default o with
                      | None => Ok (None, None)
                      | Some [] => Panic "index out of range [0] with length 0"
                      | Some (DBool true :: _) => Ok (Some [], None)
                      | Some (_ :: _) => Ok (None, Some [])
                      end ;
-            Ok ([mkLOpt tname (lo_comments o) [] [] [constant_lasg (la_path first) (DBool true)] (fst dd);
-                 mkLOpt fname (lo_comments o) [] [] [constant_lasg (la_path first) (DBool false)] (snd dd)], [])
-          else Ok ([o], [])
+            Ok [mkOption tname (op_comments o) [] [constant_asg (as_path first) (DBool true)] (fst dd);
+                mkOption fname (op_comments o) [] [constant_asg (as_path first) (DBool false)] (snd dd)]
+          else Ok [o]
       end
   end.
 
-Definition duplicate_action (base : label) (n : string) (o : loption) : action_result :=
-  ([o; set_oname (option_deep_copy base o) n], []).
+Definition duplicate_action (n : string) (o : boption) : list boption := [o; set_oname (option_deep_copy o) n].
 
 (* AddAssignmentAction: errors are swallowed (they only go to the veneer trail) *)
-Definition add_assignment_action (ss : schemas) (t : nat) (b : lbuilder) (a : vassignment) (o : loption) : res action_result :=
-  match vassignment_as_ir ss [b] b [t; 1] a with
-  | Ok ir => Ok ([set_oassignments o (lo_assignments o ++ [ir])], [])
-  | Err _ => Ok ([o], [])
+Definition add_assignment_action (ss : schemas) (b : builder) (a : vassignment) (o : boption) : res (list boption) :=
+  match vassignment_as_ir ss [b] b a with
+  | Ok ir => Ok [set_oassignments o (op_assignments o ++ [ir])]
+  | Err _ => Ok [o]
   | Panic w => Panic w
   | OutOfFuel => OutOfFuel
   end.
 
-Definition add_comments_action (cs : list string) (o : loption) : action_result := ([set_ocomments o (lo_comments o ++ cs)], []).
+Definition add_comments_action (cs : list string) (o : boption) : list boption := [set_ocomments o (op_comments o ++ cs)].
 
-(* t: number of the rule application; base = [t; builder index; option index] *)
-Definition run_action (ss : schemas) (t : nat) (base : label) (act : oaction) (b : lbuilder) (o : loption) : res action_result :=
+Definition run_action (ss : schemas) (act : oaction) (b : builder) (o : boption) : res (list boption) :=
   match act with
-  | AOmit => Ok ([], [])
+  | AOmit => Ok []
   | ARename n => Ok (rename_action n o)
   | ARenameArguments names => Ok (rename_arguments_action names o)
   | AUnfoldBoolean tn fn => unfold_boolean_action tn fn o
-  | AStructFieldsAsArguments fs => struct_fields_as_arguments_action ss base fs o
-  | AStructFieldsAsOptions fs => struct_fields_as_options_action ss base fs o
-  | AArrayToAppend => array_to_append_action base o
-  | AMapToIndex => map_to_index_action base o
-  | ADisjunctionAsOptions i => disjunction_as_options_action ss base i o
-  | ADuplicate n => Ok (duplicate_action base n o)
-  | AAddAssignment a => add_assignment_action ss t b a o
+  | AStructFieldsAsArguments fs => struct_fields_as_arguments_action ss fs o
+  | AStructFieldsAsOptions fs => struct_fields_as_options_action ss fs o
+  | AArrayToAppend => array_to_append_action o
+  | AMapToIndex => map_to_index_action o
+  | ADisjunctionAsOptions i => disjunction_as_options_action ss i o
+  | ADuplicate n => Ok (duplicate_action n o)
+  | AAddAssignment a => add_assignment_action ss b a o
   | AAddComments cs => Ok (add_comments_action cs o)
   end.
 
 (* ---------------------------------------------------------------- Rewriter.applyOptionRules *)
-(* (1) without write propagation: what the code would do if nothing were shared *)
-Definition process_options_pure (ss : schemas) (t : nat) (i : nat) (r : orule) (b : lbuilder) : res (list loption) :=
-  do outs <- mapM (fun ko => if sel_option (or_sel r) b (snd ko)
-                             then do ar <- run_action ss t [t; i; fst ko] (or_action r) b (snd ko) ; Ok (fst ar)
-                             else Ok [snd ko])
-                  (mapi (fun k o => (k, o)) (lb_options b)) ;
-  Ok (List.concat outs).
-Definition apply_option_rule_pure (ss : schemas) (t : nat) (r : orule) (bs : list lbuilder) : res (list lbuilder) :=
-  mapM (fun ib => do os <- process_options_pure ss t (fst ib) r (snd ib) ; Ok (set_options (snd ib) os))
-       (mapi (fun i b => (i, b)) bs).
-
-(* (2) as the code runs: a write reaches every holder of the cell — the builders already
-   processed, the constructor of the current one, its options already processed and still to be
-   processed, and the builders still to come.  The flag records whether any write reached a
-   holder other than the option being rewritten. *)
-Record octx := mkCtx { cx_done : list lbuilder ; cx_cur : lbuilder ; cx_rest : list lbuilder ; cx_flag : bool }.
-
-Definition effects_hit_ctx (es : list effect) (c : octx) (processed remaining : list loption) : bool :=
-  existsb (fun e => existsb (effect_hits_builder e) (cx_done c) || effect_hits_builder e (cx_cur c)
-                    || existsb (effect_hits_builder e) (cx_rest c)
-                    || existsb (effect_hits_opt e) processed || existsb (effect_hits_opt e) remaining) es.
-
-Fixpoint process_options (ss : schemas) (t i : nat) (r : orule) (b : lbuilder) (k : nat)
-                         (c : octx) (processed remaining : list loption) (fuel : nat) : res (octx * list loption) :=
-  match fuel, remaining with
-  | _, [] => Ok (c, processed)
-  | O, _ => OutOfFuel
-  | S fuel', o :: rest =>
-      if sel_option (or_sel r) b o then
-        do ar <- run_action ss t [t; i; k] (or_action r) b o ;
-        let '(newopts, effs) := ar in
-        let hit := effects_hit_ctx effs c processed rest in
-        let c' := mkCtx (map (apply_effects_builder effs) (cx_done c)) (apply_effects_builder effs (cx_cur c))
-                        (map (apply_effects_builder effs) (cx_rest c)) (cx_flag c || hit) in
-        process_options ss t i r b (S k) c' (map (apply_effects_opt effs) processed ++ newopts)
-                        (map (apply_effects_opt effs) rest) fuel'
-      else process_options ss t i r b (S k) c (processed ++ [o]) rest fuel'
-  end.
-
-Fixpoint apply_option_rule_go (ss : schemas) (t : nat) (r : orule) (done rest : list lbuilder) (flag : bool) (fuel : nat)
-  : res (list lbuilder * bool) :=
-  match fuel, rest with
-  | _, [] => Ok (done, flag)
-  | O, _ => OutOfFuel
-  | S fuel', b :: rest' =>
-      do out <- process_options ss t (List.length done) r b 0 (mkCtx done (set_options b []) rest' flag) [] (lb_options b)
-                                (List.length (lb_options b)) ;
-      let '(c, processed) := out in
-      apply_option_rule_go ss t r (cx_done c ++ [set_options (cx_cur c) processed]) (cx_rest c) (cx_flag c) fuel'
-  end.
-Definition apply_option_rule (ss : schemas) (t : nat) (r : orule) (bs : list lbuilder) (flag : bool) : res (list lbuilder * bool) :=
-  apply_option_rule_go ss t r [] bs flag (List.length bs).
+Definition option_step (ss : schemas) (r : orule) (b : builder) (o : boption) : res (list boption) :=
+  if sel_option (or_sel r) b o then run_action ss (or_action r) b o else Ok [o].
+Definition process_options (ss : schemas) (r : orule) (b : builder) : res (list boption) :=
+  do outs <- mapM (option_step ss r b) (b_options b) ; Ok (List.concat outs).
+Definition apply_option_rule (ss : schemas) (r : orule) (bs : list builder) : res (list builder) :=
+  mapM (fun b => do os <- process_options ss r b ; Ok (set_options b os)) bs.
 
 (* ---------------------------------------------------------------- Rewriter.ApplyTo *)
-Definition has_options (b : lbuilder) : bool := match lb_options b with [] => false | _ => true end.
+Definition has_options (b : builder) : bool := match b_options b with [] => false | _ => true end.
 
-Fixpoint apply_builder_rules (ss : schemas) (t : nat) (rs : list brule) (bs : list lbuilder) : res (list lbuilder) :=
+Fixpoint apply_builder_rules (ss : schemas) (rs : list brule) (bs : list builder) : res (list builder) :=
   match rs with
   | [] => Ok bs
-  | r :: rest => do bs' <- apply_builder_rule ss t r bs ; apply_builder_rules ss (S t) rest bs'
+  | r :: rest => do bs' <- apply_builder_rule ss r bs ; apply_builder_rules ss rest bs'
+  end.
+Fixpoint apply_option_rules_go (ss : schemas) (rs : list orule) (bs : list builder) : res (list builder) :=
+  match rs with
+  | [] => Ok bs
+  | r :: rest => do bs' <- apply_option_rule ss r bs ; apply_option_rules_go ss rest bs'
   end.
 (* applyOptionRules: every rule over every builder, then builders left without option are dropped *)
-Fixpoint apply_option_rules_go (faithful : bool) (ss : schemas) (t : nat) (rs : list orule) (bs : list lbuilder) (flag : bool)
-  : res (list lbuilder * bool) :=
-  match rs with
-  | [] => Ok (bs, flag)
-  | r :: rest =>
-      if faithful then
-        do out <- apply_option_rule ss t r bs flag ; apply_option_rules_go faithful ss (S t) rest (fst out) (snd out)
-      else
-        do bs' <- apply_option_rule_pure ss t r bs ; apply_option_rules_go faithful ss (S t) rest bs' flag
-  end.
-Definition apply_option_rules (faithful : bool) (ss : schemas) (t : nat) (rs : list orule) (bs : list lbuilder) (flag : bool)
-  : res (list lbuilder * bool) :=
-  do out <- apply_option_rules_go faithful ss t rs bs flag ; Ok (filter has_options (fst out), snd out).
+Definition apply_option_rules (ss : schemas) (rs : list orule) (bs : list builder) : res (list builder) :=
+  do out <- apply_option_rules_go ss rs bs ; Ok (filter has_options out).
 
 (* one language pass: builder rules, then option rules *)
-Definition apply_language (faithful : bool) (ss : schemas) (t : nat) (lrs : list language_rules) (l : string)
-                          (bs : list lbuilder) (flag : bool) : res (list lbuilder * bool) :=
-  let brs := builder_rules_for l lrs in
-  do bs1 <- apply_builder_rules ss t brs bs ;
-  apply_option_rules faithful ss (t + List.length brs) (option_rules_for l lrs) bs1 flag.
+Definition apply_language (ss : schemas) (lrs : list language_rules) (l : string) (bs : list builder) : res (list builder) :=
+  do bs1 <- apply_builder_rules ss (builder_rules_for l lrs) bs ;
+  apply_option_rules ss (option_rules_for l lrs) bs1.
 
 Definition all_languages : string := "all".
-Definition rules_count (lrs : list language_rules) (l : string) : nat :=
-  List.length (builder_rules_for l lrs) + List.length (option_rules_for l lrs).
 
-(* Rewriter.ApplyTo on labelled builders; the flag tells whether a write through a shared cell
-   reached anything but the option being rewritten *)
-Definition apply_to_rules (faithful : bool) (ss : schemas) (lrs : list language_rules) (language : string) (bs : list lbuilder)
-  : res (list lbuilder * bool) :=
-  do out <- apply_language faithful ss 1 lrs all_languages bs false ;
-  apply_language faithful ss (1 + rules_count lrs all_languages) lrs language (fst out) (snd out).
+(* Rewriter.ApplyTo: the rules common to all languages, then the language's own *)
+Definition apply_to_rules (ss : schemas) (lrs : list language_rules) (language : string) (bs : list builder) : res (list builder) :=
+  do out <- apply_language ss lrs all_languages bs ;
+  apply_language ss lrs language out.
 
 (* the whole thing: load the rule files, apply them to what FromAST derived *)
-Definition apply_to_l (faithful : bool) (ss : schemas) (files : list vfile) (language : string) (bs : list builder)
-  : res (list lbuilder * bool) :=
+Definition apply_to (ss : schemas) (files : list vfile) (language : string) (bs : list builder) : res (list builder) :=
   if negb (aliases_acyclic ss) then OutOfFuel else
   do lrs <- rewriter_from files ;
-  apply_to_rules faithful ss lrs language (label_builders 0 bs).
-
-Definition apply_to (ss : schemas) (files : list vfile) (language : string) (bs : list builder) : res (list builder) :=
-  do out <- apply_to_l true ss files language bs ; Ok (erase_builders (fst out)).
-(* the same rules with no sharing between copies (every write stays in the option it is made on) *)
-Definition apply_to_unshared (ss : schemas) (files : list vfile) (language : string) (bs : list builder) : res (list builder) :=
-  do out <- apply_to_l false ss files language bs ; Ok (erase_builders (fst out)).
-(* did a write reach a holder other than the option being rewritten? *)
-Definition interference (ss : schemas) (files : list vfile) (language : string) (bs : list builder) : bool :=
-  match apply_to_l true ss files language bs with Ok out => snd out | _ => false end.
+  apply_to_rules ss lrs language bs.
